@@ -70,7 +70,19 @@ def generate(tier, seed):
         flux = [rng.dyadic(0.0, 8.0, 8) for _ in snu]
         flux2 = [rng.dyadic(0.0, 8.0, 8) for _ in snu]
         err = [rng.dyadic(0.0, 1.0, 8) for _ in snu]
-        cases.append(dict(fnu=fnu, resp=resp, forder=rng.choice(['incr', 'decr']), source=rng.choice(['memory', 'memory', 'file']),
+        snu2 = None
+        if k % 4 == 2 and len(snu) >= 3 and kind != 'disjoint':
+            # a second SED grid of the same size and end points but other interior points (a per-file package holds SEDs on several grids)
+            mid = set()
+            tries = 0
+            while len(mid) < len(snu) - 2 and tries < 2000:
+                x = rng.dyadic(snu[0], snu[-1], 14)
+                tries += 1
+                if snu[0] < x < snu[-1]:
+                    mid.add(x)
+            if len(mid) == len(snu) - 2:
+                snu2 = [snu[0]] + sorted(mid) + [snu[-1]]
+        cases.append(dict(snu2=snu2, fnu=fnu, resp=resp, forder=rng.choice(['incr', 'decr']), source=rng.choice(['memory', 'memory', 'file']),
                           snu=snu, sorder=rng.choice(['incr', 'decr']), flux=flux, flux2=flux2, err=err, alpha=rng.dyadic(-2, 2, 4), beta=rng.dyadic(-2, 2, 4),
                           const=rng.dyadic(0.5, 5, 6), kind=kind, normalize=rng.random() < 0.5))
     return cases
@@ -111,7 +123,37 @@ def impl(case):
     binned = filt.rebin(np.array(snu) * u.Hz)
     R = np.array(binned.response, dtype=float)
     fl, fl2, er = (np.array(_ordered(case[k], case['sorder'])) for k in ('flux', 'flux2', 'err'))
-    return dict(nu=used_nu, resp=used_resp, norm=norm_resp, R=[float(x) for x in R],
+    dirrows = None
+    if case.get('snu2'):
+        # the same sums as written by convolve_model_dir for a per-file package whose SEDs sit on two different grids
+        from astropy.table import Table
+        from sedfitter.sed import SED
+        from sedfitter.convolve import convolve_model_dir
+        from sedfitter.convolved_fluxes import ConvolvedFluxes
+        grids = {'sa': (case['snu'], case['flux']), 'sb': (case['snu'], case['flux2']), 'sc': (case['snu2'], case['flux'])}
+        with tempfile.TemporaryDirectory() as d:
+            os.mkdir(os.path.join(d, 'seds'))
+            with open(os.path.join(d, 'models.conf'), 'w') as f:
+                f.write("name = test\nlength_subdir = 0\naperture_dependent = no\nlogd_step = 0.02\n")
+            t = Table()
+            t['MODEL_NAME'] = np.array(['sb', 'sc', 'sa'], dtype='S30')
+            t['par1'] = np.array([1.0, 2.0, 3.0])
+            t.write(os.path.join(d, 'parameters.fits'))
+            for nme, (g, fx) in grids.items():
+                sd = SED()
+                sd.name = nme
+                sd.distance = 1.0 * u.kpc
+                sd.nu = np.array(_ordered(g, case['sorder'])) * u.Hz
+                sd.wav = sd.nu.to(u.micron, equivalencies=u.spectral())
+                sd.apertures = None
+                sd.flux = np.array([_ordered(fx, case['sorder'])]) * u.mJy
+                sd.error = np.array([_ordered(case['err'], case['sorder'])]) * u.mJy
+                sd.write(os.path.join(d, 'seds', nme + '_sed.fits'))
+            convolve_model_dir(d, [filt])
+            cf = ConvolvedFluxes.read(os.path.join(d, 'convolved', 'FX.fits'))
+            nm_ = [(x.decode() if isinstance(x, bytes) else str(x)).strip() for x in cf.model_names]
+            dirrows = {n: [float(cf.flux.to(u.mJy).value[i][0]), float(cf.error.to(u.mJy).value[i][0])] for i, n in enumerate(nm_)}
+    return dict(dirrows=dirrows, nu=used_nu, resp=used_resp, norm=norm_resp, R=[float(x) for x in R],
                 conv=float(np.sum(fl * R)), conv2=float(np.sum(fl2 * R)), conv_comb=float(np.sum((case['alpha'] * fl + case['beta'] * fl2) * R)),
                 conv_flat=float(np.sum(np.full(len(R), case['const']) * R)), var=float(np.sum((er * R) ** 2)))
 
@@ -127,6 +169,8 @@ def model_requests(case, im):
     reqs = [('normalize', [raw])]
     filt = [[F(a), F(b)] for a, b in zip(im['nu'], im['norm'])]     # the (possibly normalised) filter the implementation re-bins
     reqs.append(('rebin', [filt, snu]))
+    if case.get('snu2'):
+        reqs.append(('rebin', [filt, [F(x) for x in _ordered(case['snu2'], case['sorder'])]]))
     return reqs
 
 
@@ -149,7 +193,7 @@ def judge(case, im, mo):
     if any(isinstance(m, tuple) for m in mo):
         return dict(disagree=['driver %r' % ([m for m in mo if isinstance(m, tuple)][:1],)], fail=[], nontrivial=False)
     disagree, fail = [], []
-    mnorm, mR = mo
+    mnorm, mR = mo[0], mo[1]
     pts = sorted((F(a), F(b)) for a, b in zip(im['nu'], im['norm']))
     # absolute tolerance: 1e-9 of the larger of the largest |R_i| and the filter's whole integral of |response| (an SED bin that only
     # touches the filter where its response vanishes collects rounding noise ~1e-30 from frequencies derived as c / lambda)
@@ -202,6 +246,24 @@ def judge(case, im, mo):
     wantv = sum((F(a) * F(r)) ** 2 for a, r in zip(er, im['R']))
     if abs(F(im['var']) - wantv) > Fraction(1, 10 ** 9) * (wantv + scale * scale * Fraction(1, 10 ** 9)):
         fail.append('quadrature: error^2 %r, sum (E_i R_i)^2 = %r' % (im['var'], float(wantv)))
+    # ---- the files written by convolve_model_dir for a per-file package with SEDs on two grids: each row is the sum over ITS OWN grid's bins
+    if im.get('dirrows') and len(mo) > 2:
+        tags.append('dir')
+        R2 = mo[2]
+        er = _ordered(case['err'], case['sorder'])
+        for nme, fx, Rm in (('sa', case['flux'], mR), ('sb', case['flux2'], mR), ('sc', case['flux'], R2)):
+            fxo = _ordered(fx, case['sorder'])
+            wantf = sum(F(a) * r for a, r in zip(fxo, Rm))
+            wante2 = sum((F(a) * r) ** 2 for a, r in zip(er, Rm))
+            row = im['dirrows'].get(nme)
+            if row is None:
+                fail.append('dir: no row labelled %s in the convolved file' % nme)
+                continue
+            tol2 = max(tol * n * 10, abs(wantf) * Fraction(1, 10 ** 9))
+            if abs(F(row[0]) - wantf) > tol2:
+                fail.append('dir: convolve_model_dir wrote flux %r for SED %s; sum F_i R_i over the bins of its own frequency grid is %r' % (row[0], nme, float(wantf)))
+            elif abs(F(row[1]) ** 2 - wante2) > Fraction(1, 10 ** 8) * (wante2 + scale * scale * Fraction(1, 10 ** 9)):
+                fail.append('dir: convolve_model_dir wrote error %r for SED %s; the quadrature sum over its own grid is %r' % (row[1], nme, float(wante2) ** 0.5))
     return dict(disagree=disagree[:3], fail=fail[:4], nontrivial=overlap > 0, tags=tags)
 
 
